@@ -28,7 +28,8 @@ type c17Case struct {
 }
 
 var c17Whats = []string{"noniterable", "nofunction", "nofilter", "notest", "missing-template", "unknown-macro", "broken-include", "broken-import", "broken-embed", "parent-outside", "bad-regexp", "oversized-range", "mod-zero",
-	"err-in-cond-branch", "err-in-args", "err-in-literal", "err-in-interp", "err-in-set", "err-in-if", "err-in-for-seq", "err-in-include-name", "err-in-with", "err-in-operand"}
+	"err-in-cond-branch", "err-in-args", "err-in-literal", "err-in-interp", "err-in-set", "err-in-if", "err-in-for-seq", "err-in-include-name", "err-in-with", "err-in-operand",
+	"err-in-filter-operand", "err-in-filter-operand-args", "err-in-test-operand"}
 
 func c17Construct(what string) []*m.N {
 	switch what {
@@ -79,6 +80,13 @@ func c17Construct(what string) []*m.N {
 		return []*m.N{{K: "include", X: m.EStr("flib"), Y: &m.E{K: "hash", KS: []*m.E{m.EName("k")}, A: []*m.E{m.ECall("nosuchfunction")}}}}
 	case "err-in-operand":
 		return []*m.N{m.NPrint(m.EBin("+", m.ENum(1), m.EBin("*", m.ENum(2), m.EUn("-", m.ECall("nosuchfunction")))))}
+	case "err-in-filter-operand":
+		// the value a declared filter is applied to fails
+		return []*m.N{m.NPrint(m.EFilter("up", m.ECall("nosuchfunction")))}
+	case "err-in-filter-operand-args":
+		return []*m.N{m.NPrint(m.EFilter("wrap", m.EBin("%", m.ENum(7), m.ENum(0)), m.EStr("x")))}
+	case "err-in-test-operand":
+		return []*m.N{m.NPrint(m.ECond(m.ETest("odd", false, m.ECall("nosuchfunction")), m.EStr("a"), m.EStr("b")))}
 	case "marker":
 		return []*m.N{{K: "do", X: m.ECall("id", m.EStr("@@"))}}
 	}
@@ -172,7 +180,7 @@ func init() {
 		ID:        "C17",
 		Level:     "fault_enumeration",
 		Technique: "fault enumeration over generated programs: every write fails in turn (two modes), every load fails in turn, run-time error constructs inserted at every statement position; invariants over the recorded write history",
-		Rule: "generated programs (text, prints, loops, captures, filter sections, macros, includes, embeds, inheritance) x every fault point: the destination writer failing at its k-th Write for every k in 1..W (error with n=0; short write with error), the loader failing at its k-th Load for every k in 1..L, and run-time error constructs (non-iterable for, unknown function / filter / test, missing template, unknown macro of an import, include / import / embed of a template with one of 23 kinds of syntax error, parent() outside a block, invalid regular expression, oversized range, modulo by zero, and an unknown function in ten expression positions) inserted before every statement of the entry template. " +
+		Rule: "generated programs (text, prints, loops, captures, filter sections, macros, includes, embeds, inheritance) x every fault point: the destination writer failing at its k-th Write for every k in 1..W (error with n=0; short write with error), the loader failing at its k-th Load for every k in 1..L, and run-time error constructs (non-iterable for, unknown function / filter / test, missing template, unknown macro of an import, include / import / embed of a template with one of 23 kinds of syntax error, parent() outside a block, invalid regular expression, oversized range, modulo by zero, and a failing expression in thirteen positions, among them the operand of a declared filter and of a test) inserted before every statement of the entry template. " +
 			"Oracle (invariants): Execute returns a non-nil error; the bytes the writer accepted are a prefix of the fault-free output (for inserted constructs: of the output of the program without the construct; a construct that is never reached - decided by a marker run - must change nothing); no Write call after the failed one; ExecuteSafe performs zero writes when rendering fails and otherwise delivers exactly Execute's bytes. " +
 			"Non-trivial: the program performs >= 3 writes and contains a filter section, include, embed or inherited block; counted per distinct (program, fault point).",
 		Assumptions: []string{"a writer that returns a short count with a nil error is a writer bug and is not injected", "a template reader failing mid-read is not in the statement's fault list"},
